@@ -84,6 +84,47 @@ fn laws_for<T: QElem>(cfg: &Cfg, rep: &mut Report, maxn: usize, relabel: &[(&str
     }
 }
 
+/// longer lanes of distinct scattered values (lengths the complete enumeration cannot reach): the same order laws, and the
+/// coincidence of all strategies wherever (N-1)q is integral in f64 (added for seed Z2: an index expression equal in exact
+/// arithmetic that rounds differently, first visible at N = 6)
+fn long_laws(cfg: &Cfg, rep: &mut Report) {
+    let maxn = if cfg.thorough { 64 } else { 24 };
+    for n in 5..=maxn {
+        let mut step = n / 2 + 1;
+        while (1..=n).filter(|d| step % d == 0 && n % d == 0).count() != 1 { step += 1; }
+        let lane: Vec<i32> = (0..n).map(|i| 10 * ((i * step) % n) as i32 - 20).collect();
+        let case = format!("qlaws;long;n={};step={}", n, step);
+        if !rep.want(cfg, &case) { continue; }
+        let grid = q_grid(n);
+        let (mn, mx) = (*lane.iter().min().unwrap(), *lane.iter().max().unwrap());
+        let mut bad: Vec<String> = vec![];
+        let mut prev: Vec<Option<i32>> = vec![None; 5];
+        for q in &grid {
+            let r: Vec<Option<i32>> = STRATS.iter().map(|s| q1(&lane, *q, *s).ok()).collect();
+            let (_, _, fr) = idx(*q, n);
+            if let (Some(l), Some(h)) = (r[0], r[1]) {
+                for si in 2..5 { if let Some(m) = r[si] {
+                    if m < l || m > h { bad.push(format!("{:?} = {} outside [Lower = {}, Higher = {}] at q = {:e}", STRATS[si], m, l, h, q)); }
+                    if fr == 0.0 && (m != l || m != h) { bad.push(format!("strategies do not coincide although (N-1)q is integral (q = {:e}): Lower = {}, {:?} = {}, Higher = {}", q, l, STRATS[si], m, h)); }
+                } }
+            }
+            for si in 0..5 {
+                match r[si] { None => bad.push(format!("{:?} failed at q = {:e}", STRATS[si], q)),
+                    Some(v) => {
+                        if v < mn || v > mx { bad.push(format!("{:?} = {} leaves [min, max] at q = {:e}", STRATS[si], v, q)); }
+                        if let Some(p) = prev[si] { if v < p { bad.push(format!("{:?} decreases at q = {:e}", STRATS[si], q)); } }
+                        if *q == 0.0 && v != mn { bad.push(format!("{:?} at q = 0 is not the minimum", STRATS[si])); }
+                        if *q == 1.0 && v != mx { bad.push(format!("{:?} at q = 1 is not the maximum", STRATS[si])); }
+                        prev[si] = Some(v);
+                    } }
+            }
+        }
+        if !bad.is_empty() { rep.fail(cfg, &case, &bad[0].clone(), json!({"lane": lane, "problems": bad.iter().take(6).collect::<Vec<_>>()})); }
+        rep.eval(&case, true);
+        if rep.stop { return; }
+    }
+}
+
 /// dense sweep on lanes with ties: Lower <= {Nearest, Midpoint, Linear} <= Higher, inside [min, max], monotone in q
 fn tie_sweep(cfg: &Cfg, rep: &mut Report) {
     let nq = if cfg.thorough { 400 } else { 200 };
@@ -121,8 +162,9 @@ fn tie_sweep(cfg: &Cfg, rep: &mut Report) {
 /// C19: order laws of quantiles, no oracle
 pub fn qlaws(cfg: &mut Cfg, rep: &mut Report) {
     tie_sweep(cfg, rep);
+    long_laws(cfg, rep);
     let maxn = if cfg.thorough { 5 } else { 4 };
-    rep.bound = format!("lanes of length 1..={} over 4-letter alphabets (i32, i8 with type extremes, N64), dense q grid around every k/(N-1), five strategies, every permutation for N <= 4, two strictly increasing relabellings; tie sweep: constant / tied-middle / two-level i32 lanes of length 2..4 with values in -20..20 (40 thorough) at q = j/200 (400 thorough)", maxn);
+    rep.bound = format!("one lane of distinct scattered i32 values per length 5..=24 (thorough: 64) over the same q grid; lanes of length 1..={} over 4-letter alphabets (i32, i8 with type extremes, N64), dense q grid around every k/(N-1), five strategies, every permutation for N <= 4, two strictly increasing relabellings; tie sweep: constant / tied-middle / two-level i32 lanes of length 2..4 with values in -20..20 (40 thorough) at q = j/200 (400 thorough)", maxn);
     laws_for::<i32>(cfg, rep, maxn, &[("3x+1", |x| 3 * x + 1), ("x^3", |x| x * x * x)]);
     laws_for::<i8>(cfg, rep, maxn.min(4), &[("x/2 (monotone on the alphabet)", |x| if *x == i8::MIN { -100 } else if *x == -1 { -50 } else if *x == 2 { 0 } else { 100 })]);
     laws_for::<N64>(cfg, rep, maxn.min(4), &[("2x+1", |x| *x * n64(2.0) + n64(1.0))]);
